@@ -196,3 +196,6 @@ EB_THREADED = {'name': 'driver-threaded', 'crate': 'gneiss-mqtt', 'module_dir': 
 PROPS['C13']['eb'].append(EB_THREADED)
 
 PROPS['C11']['eb'].append(EB_REFENC)
+
+EB_GRAMMAR = {'name': 'grammar', 'crate': 'gneiss-mqtt', 'module_dir': 'gneiss_mqtt', 'filters': ['grammar::'], 'tests': ['topic_grammar_functions_agree_with_reference'], 'timeout': 3000}
+PROPS['C16']['eb'].append(EB_GRAMMAR)
